@@ -294,4 +294,6 @@ def rule_write_event(P):
 
 def run(ctx, config):
     P = ctx.prog(UNITS, config)
-    return [rule_slots(P), rule_callbacks(P), rule_adj(P), rule_outbuf(P), rule_write_event(P)]
+    from . import C19
+    # a direction that is still suspended for another reason (or disabled) gets its event AND its timeout back when the enable slot is called too early: C19's who-may-re-arm rule
+    return [rule_slots(P), rule_callbacks(P), rule_adj(P), rule_outbuf(P), rule_write_event(P), C19.rule_rearm(ctx.prog(C19.REARM_UNITS, config), "C20-rearm")]
